@@ -13,7 +13,7 @@ RULE = (
     "list_mementos[limit], write/read_metadata, reopen) run in lock-step on filesystem, filesystem+cache "
     "(budget 2 KiB..16 MiB) and memory backends against a dict keyed by (qualified name, arg hash); "
     "after every op (sweep=full) or at the end (sweep=none) all touched keys and both listings are compared. "
-    "Two generators: (a) all sequences up to length L (3 quick / 4 thorough) over 13 ops on keys f#1/f#10 "
+    "Two generators: (a) all sequences up to length L (3 quick / 4 thorough) over 15 ops on keys f#1/f#10 (memoize small / other small / oversize str / oversize numpy array / None per key, forget call per key, forget function, forget everything, reopen) "
     "(exhaustive), (b) Hypothesis histories up to 30/80 ops with 60% hot-key bias and sizes relative to the budget. "
     "Non-trivial = history re-memoizes a live key, re-adds a forgotten key, stores an oversize/cache-filling value, "
     "looks up an absent key before a listing, or has prefix-related names live together; distinct by op-kind sequence."
@@ -83,6 +83,6 @@ def _left(ctx, frac):
 MANIFEST = {
     "level": "exploration",
     "technique": "model-based property testing: Hypothesis-generated and exhaustively enumerated operation histories against a dictionary reference model, three backends in lock-step",
-    "text": "Every StorageBackend answer in a generated history is compared with a plain dict model on filesystem, filesystem+cache and memory backends; all sequences up to length 3 (quick) / 4 (thorough) over a 13-operation alphabet are enumerated, plus biased random histories. This explores, it does not prove: bounds are stated in evidence.",
+    "text": "Every StorageBackend answer in a generated history is compared with a plain dict model on filesystem, filesystem+cache and memory backends; all sequences up to length 3 (quick) / 4 (thorough) over a 15-operation alphabet are enumerated, plus biased random histories. This explores, it does not prove: bounds are stated in evidence.",
     "note": "Trusts the harness' dictionary model and value equality (vlib/storeops.py, vlib/values.py); single process, no concurrent writers.",
 }
